@@ -183,7 +183,18 @@ func (g *G) Component() component.Component {
 	return t
 }
 
-func (g *G) Holder() *chat.ComponentHolder { return chat.FromComponent(g.Component()) }
+// Holder wraps a generated component. From 1.20.3 on the wire form is NBT built from a Go map (JSON -> NBT), whose
+// key order changes from call to call; the tag is therefore computed once and pinned in the holder so that the
+// value handed to Encode has ONE wire form (which the field dump then reports).
+func (g *G) Holder() *chat.ComponentHolder {
+	h := chat.FromComponent(g.Component())
+	if g.Proto.GreaterEqual(version.Minecraft_1_20_3) {
+		if bt, err := h.AsBinaryTag(); err == nil {
+			h.BinaryTag = bt
+		}
+	}
+	return h
+}
 
 func (g *G) Properties() []profile.Property {
 	n := g.R.Pick(0, 0, 1, 2, 3)
